@@ -16,6 +16,17 @@ func RuleToASTNode(r schema.RuleASTNode) schema.ASTNode {
 	}
 }
 
+// OrItemToASTNode returns the stand-in ASTNode for an item of the "or" rule written
+// on an element whose example value is example. A rule-set with `const: true` fixes
+// the value to that example - not to the type name the stand-in node carries.
+func OrItemToASTNode(r schema.RuleASTNode, example string) schema.ASTNode {
+	a := RuleToASTNode(r)
+	if c, ok := a.Rules.Get("const"); ok && c.Value == StringTrue {
+		a.Value = example
+	}
+	return a
+}
+
 // stringRuleToASTNode returns the ASTNode for "OR" rule elements. JSight example: // {or: [ "email", "integer" ]}
 func stringRuleToASTNode(r schema.RuleASTNode) schema.ASTNode {
 	a := schema.ASTNode{
